@@ -2,5 +2,7 @@ pub mod bigint;
 pub mod fft;
 pub mod jubjub;
 pub mod kzg;
+pub mod perm;
+pub mod prover;
 pub mod sat;
 pub mod verifier;
